@@ -171,7 +171,7 @@ def _build(case, mk_slicer, warr):
     elif d0 == "lognormal":
         dist0, fd0 = LogNormalDistribution(), {"method": "mle"}
     elif d0 == "expweib-wlsq":
-        dist0, fd0 = ExponentiatedWeibullDistribution(), {"method": "wlsq", "weights": "quadratic"}
+        dist0, fd0 = ExponentiatedWeibullDistribution(), {"method": ["wlsq", "WLSQ", "Wlsq"][int(case["sub"]) % 3], "weights": "quadratic"}  # (method names are case-insensitive)
     else:
         dist0, fd0 = ExponentiatedWeibullDistribution(f_delta=1.2), {"method": "lsq", "weights": None}
     bounds3 = [(0, None), (0, None), (None, None)]
